@@ -14,7 +14,7 @@ AST_FILTER = ['isArrayTypeName', 'isArrayType', 'isClassRefType', 'SemanticAnaly
               'matchesPrimitive', 'numericPromotion', 'SemanticAnalyser::validateTypedInitializer', 'ValueType', 'Visibility', 'SemanticAnalyser::visit']
 SHIM = 'semk.h'
 SITES = ['ReturnStatement', 'AssignmentStatement', 'AssignmentExpression', 'MemberAssignmentExpression']
-THROWING = {'validateTypedInitializer_decision', 'resolveField', 'recordFinalFieldAssignment'} | {'visit_' + x for x in SITES}
+THROWING = {'validateTypedInitializer_decision', 'resolveField', 'recordFinalFieldAssignment', 'checkArgs'} | {'visit_' + x for x in SITES}
 DROPS = ['class / array type names: interned identities; their text only through two uninterpreted functions (size, position of the last "[]")',
          'TypeInfo::typeArgs: only its element count; typeEquals, isSubclassOf, inheritanceDistance, getTypeParamBound: contract-only stubs (uninterpreted class hierarchy)',
          'diagnostic message text; the AST-dependent refinements of the error message in validateTypedInitializer (dynamic_cast on the initialiser) are evaluated as arbitrary booleans',
@@ -98,6 +98,14 @@ class Profile(Lower):
 
     def decl(self, v):
         t = qt(v)
+        if getattr(self, 'in_checkargs', False) and t.rstrip().endswith('&') and 'unique_ptr' in t:
+            init = [i for i in kids(v) if 'kind' in i]
+            e = self.expr(init[0])
+            if e.startswith('BL_ARGREF('):
+                self.locals.add(v['name'])
+                self.argrefs = getattr(self, 'argrefs', {})
+                self.argrefs[v['name']] = e
+                return '/* %s refers to argument %s */;' % (v['name'], e)
         if norm_type(t) == 'int' and t.rstrip().endswith('&') and not t.strip().startswith('const'):
             # int& x = <lvalue>;  ->  int *x = &(<lvalue>);  uses of x become (*x)
             init = [i for i in kids(v) if 'kind' in i]
@@ -109,6 +117,8 @@ class Profile(Lower):
     def declref(self, n):
         if n['referencedDecl']['name'] == 'nullopt':
             return 'BL_NULLOPT'
+        if n['referencedDecl']['name'] in getattr(self, 'argrefs', {}) and getattr(self, 'in_checkargs', False):
+            return self.argrefs[n['referencedDecl']['name']]
         if n['referencedDecl']['name'] in getattr(self, 'ref_locals', set()):
             return '(*%s)' % n['referencedDecl']['name']
         if n['referencedDecl']['name'] in getattr(self, 'dropped_strings', set()):
@@ -139,6 +149,16 @@ class Profile(Lower):
             return '(%s).v' % self.expr(args[0])
         if op == 'operator->' and t0 == 'opt_TypeInfo':
             return '(%s).v' % self.expr(args[0])
+        if op == 'operator[]' and getattr(self, 'in_checkargs', False):
+            b = strip_parens(args[0])
+            while b.get('kind') in ('ImplicitCastExpr',) and kids(b):
+                b = strip_parens(kids(b)[0])
+            if b.get('kind') == 'DeclRefExpr' and b['referencedDecl']['name'] in ('params', 'actualTypes'):
+                return '%s[BL_IDX(%s, PMAXA)]' % ({'params': 'g_params', 'actualTypes': 'g_actuals'}[b['referencedDecl']['name']], self.expr(args[1]))
+            if b.get('kind') == 'MemberExpr' and b.get('name') == 'arguments':
+                return 'BL_ARGREF(%s)' % self.expr(args[1])
+        if op == 'operator->' and getattr(self, 'in_checkargs', False) and self.expr(args[0]).startswith('BL_ARGREF('):
+            return self.expr(args[0])
         if op == 'operator[]' and 'unordered_map<std::basic_string<char>, int' in norm_type(qt(args[0])) and self.ct(args[1]) == 'bl_cname':
             return '(*semk_count_slot(%s))' % self.expr(args[1])
         if op == 'operator=' and t0 == 'TypeInfo':
@@ -157,6 +177,12 @@ class Profile(Lower):
     def member(self, n):
         base = kids(n)[0]
         sb = strip(base)
+        if getattr(self, 'in_checkargs', False) and n['name'] in ('line', 'column') and sb.get('kind') == 'CXXOperatorCallExpr' and callee_name(kids(sb)[0]) == 'operator->':
+            inner = self.expr(sb)
+            if inner.startswith('BL_ARGREF('):
+                return 'g_arg_%s[BL_IDX(%s, PMAXA)]' % (n['name'], inner[len('BL_ARGREF('):-1])
+        if getattr(self, 'in_checkargs', False) and n['name'] == 'arguments':
+            return 'BL_ARGUMENTS'
         if sb.get('kind') == 'CXXThisExpr':
             return 'sa_' + n['name']          # analyser state: file-level variables (arbitrary on entry)
         if self.ct(base) == 'bl_clsinfo':
@@ -188,6 +214,14 @@ class Profile(Lower):
                     lit = strip_parens(kids(lit)[0])
                 if lit.get('kind') == 'StringLiteral' and lit['value'] == '"[]"':
                     return 'bl_name_rfind_brackets(%s)' % o
+        if getattr(self, 'in_checkargs', False) and name == 'size':
+            b = strip_parens(obj)
+            while b.get('kind') in ('ImplicitCastExpr',) and kids(b):
+                b = strip_parens(kids(b)[0])
+            if b.get('kind') == 'DeclRefExpr' and b['referencedDecl']['name'] == 'params':
+                return 'g_nparams'
+            if b.get('kind') == 'MemberExpr' and b.get('name') == 'arguments':
+                return 'g_nargs'
         if t == 'size_t' and 'vector' in qt(obj):
             if name == 'empty':
                 return '(%s == 0)' % o
@@ -270,6 +304,15 @@ class Profile(Lower):
 
 def lambda_function(prof, docs, name):
     vs = [d for d in docs if d.get('kind') == 'VarDecl' and d.get('name') == name]
+    if not vs:
+        # a local lambda (declared inside one of the dumped functions)
+        seen = set()
+        for d in docs:
+            def f(z):
+                if z.get('kind') == 'VarDecl' and z.get('name') == name and z.get('id') not in seen:
+                    seen.add(z.get('id'))
+                    vs.append(z)
+            walk(d, f)
     if len(vs) != 1:
         raise Unsupported('lambda %s: %d definitions' % (name, len(vs)))
     lam = []
@@ -281,8 +324,8 @@ def lambda_function(prof, docs, name):
     body = [k for k in kids(lam[0]) if k.get('kind') == 'CompoundStmt'][-1]
     rets = []
     walk(body, lambda z: rets.append(z) if z.get('kind') == 'ReturnStmt' and kids(z) else None)
-    rt = prof.ctype(qt(kids(rets[0])[0]))
-    d = dict(kind='FunctionDecl', name=name, type=dict(qualType='%s ()' % ('bool' if rt == '_Bool' else 'int')), inner=[pd for pd in kids(call) if pd.get('kind') == 'ParmVarDecl'] + [body])
+    rt = prof.ctype(qt(kids(rets[0])[0])) if rets else 'void'
+    d = dict(kind='FunctionDecl', name=name, type=dict(qualType='%s ()' % ('bool' if rt == '_Bool' else 'void' if rt == 'void' else 'int')), inner=[pd for pd in kids(call) if pd.get('kind') == 'ParmVarDecl'] + [body])
     return prof.func(d, cname=name, is_method=False)
 
 
@@ -307,6 +350,19 @@ def lower_regions(docs, prof):
     head, lines = prof.func(d, cname='validateTypedInitializer_decision', is_method=False)
     head = 'void semk_validateTypedInitializer_decision(TypeInfo targetInfo, TypeInfo initInfo, int line, int column, bl_cname name)'
     out.append((head, lines))
+    # the argument site: the local lambda `checkArgs` of visit(CallExpression&) (captures node.arguments and actualTypes)
+    try:
+        prof.in_checkargs = True
+        prof.locals |= {'params', 'actualTypes', 'node'}
+        h0, l0 = lambda_function(prof, docs, 'checkArgs')
+        out.append(('void semk_checkArgs(size_t params, bl_cname name, int line, int column)', l0))
+    except Unsupported as e:
+        if not hasattr(prof, 'region_unlowered'):
+            prof.region_unlowered = {}
+        prof.region_unlowered['checkArgs'] = str(e)
+        out.append(('void semk_checkArgs(size_t params, bl_cname name, int line, int column)', None))
+    finally:
+        prof.in_checkargs = False
     # the rule-enforcing visitor methods (one per syntactic site), selected by their parameter type
     vis = [d for d in cxx2c.find_functions(docs, 'visit') if d.get('kind') in ('CXXMethodDecl', 'FunctionDecl')]
     for site in SITES:
@@ -410,8 +466,8 @@ void semk_stub_accept(bl_ast e) __CPROVER_requires(bl_exc == 0) __CPROVER_assign
 #define ACC(v, o, a) ((v) == BL_Public || ((v) == BL_Private && (o) == (a)) || ((v) == BL_Protected && (a) != 0 && ((a) == (o) || ((o) != 0 && SUBCLASS(a, o)))))
 #define ISVOID_T(t) ((t).value == BL_Void && (t).className == 0)
 /* accepted(T <- V) as the property states it: same type / int->long / subclass / null only for class references / same array type;
-   a genuinely unknown value type is the only wildcard */
-#define ACCEPT_OK(T, V) (IS_NULL(V) ? IS_CLASS(T) : IS_UNKNOWN(V) ? 1 : IS_PRIM(T) ? COMPAT_PRIM(T, V) \
+   a genuinely unknown value type is the only wildcard; a slot of genuinely unknown declared type is outside the rule ("a value of known declared type") */
+#define ACCEPT_OK(T, V) (IS_NULL(V) ? (IS_CLASS(T) || IS_UNKNOWN(T)) : IS_UNKNOWN(V) ? 1 : IS_PRIM(T) ? COMPAT_PRIM(T, V) \
   : IS_CLASS(T) ? ((V).className != 0 && ((V).className == (T).className || SUBCLASS((V).className, (T).className))) \
   : IS_ARRAY(T) ? (IS_ARRAY(V) && (V).className == (T).className) : 1)
 #define WF_T(t) ((t).value >= 0 && (t).value <= BL_Unknown && WF_TI(t) && !(t).isTypeParam)
@@ -537,6 +593,28 @@ CONTRACTS_SITES = {
         E('member_assignment.accepted_value_has_the_declared_type', '(bl_exc == 0 && node.value != 0) ==> ACCEPT_OK(g_field.type, TI_OF(node.value))', ['C16']),
     ]},
 }
+PMAXA_N = 6
+GHOSTS += r'''
+#ifndef PMAXA
+#define PMAXA 6
+#endif
+_Bool g_accept_gi; TypeInfo g_params[PMAXA], g_actuals[PMAXA]; size_t g_nparams, g_nargs, gi; int g_arg_line[PMAXA], g_arg_column[PMAXA];
+#define ARGS_WF (''' + ' && '.join('(%d >= PMAXA || (WF_T(g_params[%d %% PMAXA]) && g_params[%d %% PMAXA].value != BL_Null && WF_T(g_actuals[%d %% PMAXA])))' % (j, j, j, j) for j in range(PMAXA_N)) + r''')
+'''
+CONTRACTS_SITES['checkArgs'] = {
+    'contract': [
+        R('bl_exc == 0 && g_nparams <= PMAXA && g_nargs <= PMAXA && gi < PMAXA && ARGS_WF'),
+        A('bl_exc, bl_exc_line, bl_exc_col, g_accept_gi'),
+        E('call.arguments.only_semantic_errors', 'SEM_OR_NONE', ['C16', 'C13']),
+        E('call.arguments.arity_mismatch_rejected_at_the_call', '(g_nparams != g_nargs) ==> (bl_exc == EXC_SEM && bl_exc_line == line && bl_exc_col == column)', ['C16']),
+        E('call.arguments.accepted_value_has_the_declared_type', '(bl_exc == 0 && gi < g_nargs) ==> ACCEPT_OK(g_params[gi], g_actuals[gi])', ['C16', 'C08']),
+    ],
+    'prologue': 'g_accept_gi = ACCEPT_OK(g_params[gi], g_actuals[gi]);',
+    'loops': {0: {'assigns': 'i, bl_exc, bl_exc_line, bl_exc_col',
+                  'invariants': [('checkArgs.loop.bounds', 'i <= g_nargs && bl_exc == 0 && g_nparams == g_nargs'),
+                                 ('checkArgs.loop.accepted_so_far', '(gi < i) ==> (g_accept_gi != 0)')],
+                  'decreases': 'g_nargs - i'}},
+}
 CONTRACTS.update(CONTRACTS_SITES)
 STUBS = ['semk_stub_typeEquals', 'semk_stub_isSubclassOf', 'semk_stub_inheritanceDistance', 'semk_stub_getTypeParamBound', 'semk_stub_ast_shape']
 SITE_STUBS = ['semk_stub_' + x for x in ('isDeclared', 'isFinal', 'isThisReference', 'isTypeReference', 'getVariableType', 'combine', 'substituteTypeParams', 'findClass', 'inferDiamondTypeArguments', 'inferTypeInfo', 'accept')]
@@ -554,6 +632,8 @@ HARNESSES = [
     dict(name='resolveField', fn='resolveField', replace=['isAccessible'] + SITE_STUBS, flags=[], props=['C16', 'C13'], timeout=120, bounded_replace=SITE_STUBS + STUBS[1:2]),
     dict(name='recordFinalFieldAssignment', fn='recordFinalFieldAssignment', replace=[], flags=[], props=['C16', 'C13'], timeout=120,
          canaries=[('bl_exc == 0 && a0.isFinal', 'final field accepted'), ('bl_exc != 0', 'rejected')]),
+    dict(name='checkArgs', fn='checkArgs', replace=['matchesPrimitive', 'isAssignableType'] + STUBS, flags=[], props=['C16', 'C13', 'C08'], timeout=300, bounded_unwindset=['semk_isAssignableType:1'], unwind=4, bounded_defs=['PMAXA=2'],
+         bounded_replace=STUBS, canaries=[('bl_exc == 0 && g_nargs >= 2', 'a call with several arguments accepted'), ('bl_exc != 0', 'rejected')]),
 ] + [dict(name='visit_' + st, fn='visit_' + st, replace=['matchesPrimitive', 'isAssignableType', 'isAccessible', 'recordFinalFieldAssignment'] + SITE_STUBS + STUBS, flags=[], props=['C16', 'C13'], timeout=180, bounded_unwindset=['semk_isAssignableType:1'],
           bounded_replace=SITE_STUBS + STUBS, canaries=[('bl_exc == 0 && a0.value != 0', 'accepted with a value'), ('bl_exc != 0', 'rejected')]) for st in SITES]
 
@@ -582,7 +662,9 @@ def replay_counterexample(pu, h, label, failure, work, tier, seed):
     fails = [l for l in out.split('\n') if l.startswith('FAIL ')]
     same = [l for l in fails if label and ('label=' + label + ' ') in l]
     fnp = h['fn'].replace('_decision', '')
-    pick = same or [l for l in fails if ('label=' + fnp + '.') in l]
+    pref = {'checkArgs': 'call.arguments.', 'visit_ReturnStatement': 'return.', 'visit_AssignmentStatement': 'assignment_statement.', 'visit_AssignmentExpression': 'assignment_expression.',
+            'visit_MemberAssignmentExpression': 'member_assignment.'}.get(h['fn'], fnp + '.')
+    pick = same or [l for l in fails if ('label=' + pref) in l]
     if pick:
         m = re.search(r'label=(\S+)', pick[0])
         return dict(failing_input_found=True, failing_input=pick[0], native_failures=fails[:6], oracle_label=m.group(1), signature=re.sub(r' detail=.*', '', pick[0])[:160],
